@@ -242,6 +242,15 @@ impl InMemorySessionStore {
             .collect()
     }
 
+    /// Verification hook: the state stored under `id`, stale or not. Read-only.
+    pub async fn verif_state(
+        &self,
+        id: &SessionId,
+    ) -> Option<HashMap<Cow<'static, str>, serde_json::Value>> {
+        let guard = self.0.lock().await;
+        guard.get(id).map(|record| record.state.clone())
+    }
+
     /// Verification hook: moves every deadline `by` into the past, i.e. lets `by` of time pass
     /// for all the records in the map at once.
     pub async fn verif_age(&self, by: Duration) {
